@@ -91,8 +91,11 @@ impl AttributeParser {
     }
 
     fn parse_literal(&mut self, name: Ident, lit: Literal) -> Nested {
-        // TODO: Error if there are any tokens following
-        let _ = self.collect_tail(Empty);
+        let tail = self.collect_tail(Empty);
+
+        if !tail.is_empty() {
+            return Nested::Unexpected(tail);
+        }
 
         Nested::Named(name, NestedValue::Literal(lit))
     }
